@@ -168,6 +168,12 @@ def jobs(tier, seed):
                 js.append({'harness': 'reliable', 'weight': 400,
                            'cfg': {'cc': cc, 'm': m, 'kd': m + 3, 'ka': m + 3, 'max_drops': 2, 'd1': d1, 'd2': d2, 'rtt0': 1.0,
                                    'horizon': 100000}})
+    # three drops anywhere among the first transmissions of an 8-segment flow
+    for cc in ('reno', 'cubic'):
+        for m in (8,) if tier == 'quick' else (6, 8, 10):
+            js.append({'harness': 'reliable', 'weight': 800,
+                       'cfg': {'cc': cc, 'm': m, 'kd': m + 4, 'ka': m + 4, 'max_drops': 3, 'd1': 0.25, 'd2': 0.25, 'rtt0': 1.0,
+                               'horizon': 100000}})
     return js
 
 
